@@ -49,8 +49,10 @@ PDrain == /\ Len(hist) < MaxHist /\ exists /\ depth > 0
           /\ UNCHANGED <<exists, held>> /\ Log([a |-> "drain", d |-> 0, e |-> 0])
 
 \* token_pool_free: effective only at count 0 (otherwise the code prints an error and does nothing)
-PFree == /\ Len(hist) < MaxHist /\ exists /\ depth = 0
-         /\ IF count = 0 THEN exists' = FALSE /\ slabs' = 0 /\ nextSlot' = SlabSize /\ epoch' = epoch + 1 /\ stale' = FALSE
+\* (with no pool at all -- a second free, or a free before the first init -- there is nothing to release: the call is a no-op)
+PFree == /\ Len(hist) < MaxHist /\ depth = 0
+         /\ IF ~exists THEN UNCHANGED <<exists, slabs, nextSlot, epoch, stale>>
+            ELSE IF count = 0 THEN exists' = FALSE /\ slabs' = 0 /\ nextSlot' = SlabSize /\ epoch' = epoch + 1 /\ stale' = FALSE
                          ELSE UNCHANGED <<exists, slabs, nextSlot, epoch, stale>>
          /\ UNCHANGED <<count, depth, held>> /\ Log([a |-> "free", d |-> 0, e |-> 0])
 
